@@ -77,7 +77,7 @@ theorem extremaLoop_spec {E : Env} (hE : OracleExact E) {hook : PModel → M Uni
           loOf signed e.bits ≤ lo' ∧ hi' ≤ hiOf signed e.bits ∧ lo' ≤ hi' ∧ hi' - lo' ≤ 1 ∧
           Bracket isMax ((objAt s r).asserted ++ extra) (fun a => key signed e.bits (e.val a)) lo' hi' ∧
           L1Step r P s s' ∧ (objAt s' r).frames = (objAt s r).frames
-      | (.error err, s') => err = .giveUp ∧ L1Step r P s s' ∧ (objAt s' r).frames = (objAt s r).frames := by
+      | (.error err, s') => IsGiveUp E err ∧ L1Step r P s s' ∧ (objAt s' r).frames = (objAt s r).frames := by
   intro fuel
   induction fuel with
   | zero =>
@@ -117,7 +117,7 @@ theorem extremaLoop_spec {E : Env} (hE : OracleExact E) {hook : PModel → M Uni
               loOf signed e.bits ≤ lo' ∧ hi' ≤ hiOf signed e.bits ∧ lo' ≤ hi' ∧ hi' - lo' ≤ 1 ∧
               Bracket isMax ((objAt s r).asserted ++ extra) (fun a => key signed e.bits (e.val a)) lo' hi' ∧
               L1Step r P s s' ∧ (objAt s' r).frames = (objAt s r).frames
-          | (.error err, s') => err = .giveUp ∧ L1Step r P s s' ∧ (objAt s' r).frames = (objAt s r).frames := by
+          | (.error err, s') => IsGiveUp E err ∧ L1Step r P s s' ∧ (objAt s' r).frames = (objAt s r).frames := by
         intro s2 lo2 hi2 hst2 hfr2 g0 g1 gle gd gb
         have has : (objAt s2 r).asserted = (objAt s r).asserted := by simp only [Z3Obj.asserted, hfr2]
         have := ih lo2 hi2 s2 (by rw [has]; exact hA) g0 g1 gle gd (by rw [has]; exact gb)
@@ -209,7 +209,7 @@ theorem z3Extrema_spec {E : Env} (hE : OracleExact E) {hook : PModel → M Unit}
     match z3Extrema E r isMax e extra signed hook s with
     | (.ok i, s') => IsOptZ isMax signed ((objAt s r).asserted ++ extra) e i ∧ L1Step r P s s' ∧
                      (objAt s' r).frames = (objAt s r).frames
-    | (.error err, s') => err = .giveUp ∧ L1Step r P s s' ∧ (objAt s' r).frames = (objAt s r).frames := by
+    | (.error err, s') => IsGiveUp E err ∧ L1Step r P s s' ∧ (objAt s' r).frames = (objAt s r).frames := by
   have hP := two_pow_pred e.bits he.1
   have hP2 : 2 ^ (e.bits + 1) = 2 * 2 ^ e.bits := by rw [Nat.pow_succ, Nat.mul_comm]
   have hrange : ∀ a, loOf signed e.bits ≤ key signed e.bits (e.val a) ∧ key signed e.bits (e.val a) ≤ hiOf signed e.bits :=
